@@ -49,7 +49,7 @@ func init() {
 			"ground truth from the harness' own operation log; (b) Failover/FailoverOf over a named wrapped backend driven by the C01 case generator (steered and free, no fault injection), ground truth from the event log " +
 			"(backend reads by result class, writes, builder invocations, failing ones, refresh writes, failure-cache writes); oracle at quiescence per name label, per metric and for the documented sums; " +
 			"distinct_nontrivial = distinct (family, backend/config, metric-vector) outcomes with at least 3 non-zero metrics",
-		Required:    []string{"a.sequential", "a.concurrent", "b.runs", "c.conservation", "d.panicking_builder_runs", "metric.cache_hit", "metric.cache_miss", "metric.cache_expired", "metric.cache_write", "metric.cache_delete", "metric.cache_build", "metric.cache_failed", "metric.cache_refreshed", "expireall.entries", "deleteall.entries"},
+		Required:    []string{"a.sequential", "a.concurrent", "a.bulk_phases", "b.runs", "c.conservation", "d.panicking_builder_runs", "metric.cache_hit", "metric.cache_miss", "metric.cache_expired", "metric.cache_write", "metric.cache_delete", "metric.cache_build", "metric.cache_failed", "metric.cache_refreshed", "expireall.entries", "deleteall.entries"},
 		Assumptions: []string{"evictions are off (no limits, janitor interval 1h)", "cache_refreshed is emitted before the refresh write: counted as attempts seen by the wrapper (workloads inject no backend faults, so attempts == re-stores)"},
 		Timeout:     func(string) time.Duration { return 45 * time.Minute },
 	})
@@ -152,6 +152,17 @@ func c18Backend(b *Batch, idx int) {
 			for i := 0; i < 20+rng.Intn(60); i++ {
 				c18Op(be, keys, presentAll, rng, &hit, &miss, &expired, &write, &del, &ops)
 			}
+		}
+		if rng.Intn(6) == 0 {
+			// a big cache: thousands of entries, dozens per shard
+			bulk := 3000 + rng.Intn(5000)
+			for i := 0; i < bulk; i++ {
+				k := fmt.Sprintf("bulk-%d-%d", ph, i)
+				be.Write(bg, []byte(k), "b")
+				presentAll[k] = true
+			}
+			write += int64(bulk)
+			b.R.Count("a.bulk_phases", 1)
 		}
 		// barrier: batch operations with exact "entries touched"
 		switch rng.Intn(3) {
